@@ -37,7 +37,7 @@ Fixpoint bm_advance (fuel : nat) (s : bst) : outcome bst :=
   | O => OutOfFuel
   | S fuel' =>
       let bit := b_bit s + 1 in
-      do r <- (if bit =? 8 then
+      do r <- (if bit =? bitmap_bits then
                  let octet := b_octet s + 1 in
                  if octet =? b_len s then
                    do d <- from (b_data s) (b_len s);
